@@ -1,5 +1,7 @@
 import I2N.Lemmas.TunnelEnds
 import I2N.Lemmas.TunnelExamples
+import I2N.Lemmas.PyGen
+import I2N.Extracted.GenTunnel
 /-!
 # C19 — Tunnel end point parameters mirror each other
 
@@ -491,5 +493,42 @@ example : ∃ t, tunnelParams "vpn1" Ex.vm1 Ex.vm2 defaultLocal defaultRemote de
     (isOk (t.onLeft Ex.vm1) && isOk (t.onRight Ex.vm2) && isOk (t.onRight Ex.vm1) && isOk (t.onLeft Ex.vm2)) = true ∧
     isOk (t.connects Ex.vm1 Ex.vm2) = true ∧ isOk (t.connects Ex.vm2 Ex.vm1) = true :=
   ⟨_, rfl, by decide, by decide, by decide⟩
+
+/-! ## The regenerated model (`harness/pygen.py`)
+
+`I2N/Extracted/GenTunnel.lean` is regenerated from the source of `VMTunnel._get_peer_variant` on every run (Python AST →
+Lean `do` block, statement by statement).  The theorem below is the proof obligation that ties the hand written
+`peerVariant` to it: any change of the Python's decision logic changes `genPeerVariant` and this proof stops compiling. -/
+
+set_option linter.unusedSimpArgs false in
+open I2N.Extracted.GenTunnel in
+/-- **The hand written model of `_get_peer_variant` is the Python source.**  For *all* dictionaries (any keys, any
+strings, missing `"type"` / `"nic"` keys included) the definition generated from /repo's source and the hand written
+`peerVariant` return the same triple of dictionaries or raise the same error.  No hypotheses. -/
+theorem peerVariant_matches_source (ll lr lp : SDict) : genPeerVariant ll lr lp = peerVariant ll lr lp := by
+  unfold genPeerVariant peerVariant variantRemote variantLocal variantPeer SDict.getItem
+  generalize ll.get? "type" = a
+  generalize ll.get? "nic" = b
+  generalize lr.get? "type" = c
+  generalize lr.get? "nic" = d
+  generalize lp.get? "type" = e
+  generalize lp.get? "nic" = f
+  rcases PyGen.optStr_cases3 a "nic" "internetip" "custom" with rfl | rfl | rfl | rfl | ⟨s, rfl, h1, h2, h3⟩ <;>
+    (try simp (config := {zeta := false}) only [PyGen.bind_ok, PyGen.bind_error, beq_iff_eq, if_pos, if_neg, *,
+      String.reduceEq, if_true, if_false]) <;>
+  rcases PyGen.optStr_cases2 c "custom" "externalip" with rfl | rfl | rfl | ⟨s', rfl, h1', h2'⟩ <;>
+    (try simp (config := {zeta := false}) only [PyGen.bind_ok, PyGen.bind_error, beq_iff_eq, if_pos, if_neg, *,
+      String.reduceEq, if_true, if_false]) <;>
+  rcases PyGen.optStr_cases2 e "dynip" "ip" with rfl | rfl | rfl | ⟨s'', rfl, h1'', h2''⟩ <;>
+    (try simp (config := {zeta := false}) only [PyGen.bind_ok, PyGen.bind_error, beq_iff_eq, if_pos, if_neg, *,
+      String.reduceEq, if_true, if_false]) <;>
+  cases b <;> cases d <;> cases f <;>
+    first | rfl | simp [PyGen.bind_ok, PyGen.bind_error, *]
+
+open I2N.Extracted.GenTunnel in
+/-- the generated definition computes (it is not stuck on anything): the default triple, and a missing key -/
+example : genPeerVariant defaultLocal defaultRemote defaultPeer = .ok (defaultLocal, defaultRemote, defaultPeer) := rfl
+open I2N.Extracted.GenTunnel in
+example : genPeerVariant [("type", "x")] [("type", "custom")] defaultPeer = .error .keyError := rfl
 
 end I2N.Props.C19
